@@ -132,7 +132,7 @@ class IRGen:
             kind = r.choice(
                 [
                     "word_default", "number", "paren", "backtick", "stop", "comma",
-                    "optional_word", "eg", "colon",
+                    "optional_word", "eg", "colon", "percent",
                 ]
             )
             base = "the {} setting".format(tag)
@@ -154,6 +154,8 @@ class IRGen:
                 return base + ". Used by the trainer", "inner_stop"
             if kind == "colon":
                 return base + " example: foo", "colon"
+            if kind == "percent":
+                return base + " held out at 20% of the data, shown as %(zq)s", "percent"
         return "the {} setting {}".format(tag, self._words(r.randint(0, 4))).rstrip(), "plain"
 
     # -- values -----------------------------------------------------------
